@@ -88,6 +88,14 @@ package state
 //@   opt assumecallreqs
 //@   atcall stateObject.deepCopy requires [copiedObjectsBelongToTheCopy] db == outer(state) && db != outer(s)
 
+// An account is empty (and deleted at the end of the transaction under EIP-161) only with a zero nonce, a
+// zero balance and no code: an account that has sent a transaction is never empty.
+//@ func (s *stateObject) empty() (r bool)
+//@   for C09 C08
+//@   requires s != nil && s.data.Balance != nil
+//@   modifies nothing
+//@   ensures [emptyMeansNoNonceNoBalance] r ==> s.data.Nonce == 0 && s.data.Balance.v == 0
+
 // Self-destruct journals the mark and the balance as they were BEFORE it changes them, then marks the
 // account and empties it -- every time it is called, also on an account already marked.
 //@ func (s *StateDB) Suicide(addr common.Address) (r bool)
